@@ -2,6 +2,8 @@ import OpusProofs.SilkCoreBasic
 import OpusProofs.SilkCoreHist
 import OpusProofs.SilkCoreIndep
 import OpusProofs.SilkCoreExample
+import OpusProofs.SilkCoreBridge
+import OpusProofs.SilkCoreRange
 /-
   OpusProps.C03SilkCore — property C03, slice SilkCore: theorems about the frozen bit-exact reference of the SILK frame
   synthesis at the internal rate (`OpusModel/SilkCore.lean`, `SilkCoreSynth.lean`, `SilkCoreFrame.lean`), for all states and
@@ -36,10 +38,10 @@ example : (frameGood exState exVoiced).isOk = true := exVoiced_ok
 /-- The reference is frozen and the tree still agrees with it: the three LTP gain codebooks, `silk_LTPScales_table_Q14`,
     `silk_Quantization_Offsets_Q10` and every constant the model reads (QUANT_LEVEL_ADJUST_Q10, BWE_AFTER_LOSS_Q16, RAND_MULTIPLIER /
     RAND_INCREMENT, LTP_ORDER, MAX / MIN_LPC_ORDER, MAX_NB_SUBFR, LTP_MEM_LENGTH_MS, SUB_FRAME_LENGTH_MS, buffer sizes, signal-type
-    codes, the state after a reset) regenerated from `/repo` on this run equal the frozen copies of `OpusModel/SilkCoreFrozen.lean`. -/
+    codes, the state after a reset) regenerated from `/repo` on this run equal the frozen values of `OpusModel/SilkCoreFrozen.lean`, which are the ones the model reads. -/
 theorem tables_frozen_eq_repo : Opus.SilkCoreFrozen.frozenEq = true := frozenEq_true
 
-example : Opus.SilkCoreFrozen.ltpVq2.length = 160 ∧ Opus.SilkCoreFrozen.bweAfterLossQ16 = 63570 := by decide +kernel
+example : Opus.Frozen.SilkCoreTabs.ltpVq2.length = 160 ∧ Opus.Frozen.SilkCoreTabs.bweAfterLossQ16 = 63570 := by decide +kernel
 
 /-- Clause "totality of silk_decode_parameters".  On EVERY invariant state and EVERY in-range index set the model of
     `silk_decode_parameters` completes (no table index out of range, no assertion), and the control block it leaves has
@@ -51,6 +53,21 @@ theorem parameters_total (s : DecState) (f : FrameIn) (hs : StateOk s) (hf : Fra
   decodeParameters_total s f hs hf
 
 example : StateOk exState ∧ FrameOk exState.fsKHz exState.nbSubfr exVoiced := ⟨exState_ok, exVoiced_frameOk⟩
+
+/-- Clause "in-range indices (as C03's symbol layer guarantees)".  The hypothesis `FrameOk` of the theorems in this file is what the
+    symbol layer delivers: for EVERY range-decoder state (= every packet content), rate, 10 / 20 ms sub-frame count and coding mode,
+    the indices `silk_decode_indices` returns (model `Opus.SilkSyms.decodeIndices`, tied to the library by C03 stage 1), put into the
+    input record of the synthesis together with `frame_length` decoded pulses, satisfy `FrameOk`. -/
+theorem symbol_layer_delivers_frame_ok (rate : Opus.SilkSyms.Rate) (nb : Nat) (hnb : nb = 2 ∨ nb = 4) (vadOrLbrr : Bool)
+    (cc ps : Nat) (pl : Int) (c : Opus.RangeCoder.Dec) (ix : Opus.SilkSyms.Indices) (c' : Opus.RangeCoder.Dec)
+    (h : Opus.SilkSyms.decodeIndices rate nb vadOrLbrr cc ps pl c = (ix, c')) (condCoding : Int) (pulses : List Int)
+    (hp : frameLen rate.kHz nb ≤ pulses.length) :
+    FrameOk rate.kHz nb (frameOfIndices condCoding ix pulses) :=
+  frameOk_of_indicesOk
+    (Opus.SilkSymsProofs.decodeIndices_ok rate nb (by omega) vadOrLbrr cc ps pl c ix c' h) hnb condCoding pulses hp
+
+example (c : Opus.RangeCoder.Dec) : ∃ ix c', Opus.SilkSyms.decodeIndices .wb 4 true 2 2 100 c = (ix, c') :=
+  ⟨(Opus.SilkSyms.decodeIndices .wb 4 true 2 2 100 c).1, (Opus.SilkSyms.decodeIndices .wb 4 true 2 2 100 c).2, (Prod.eta _).symm⟩
 
 /-- Clause "totality of silk_decode_core".  Under `CoreHyp` — ANY state contents (signal history, filter state, previous gain,
     loss / reset status), ANY pulses, seed, LPC and LTP coefficients — the model of `silk_decode_core` never reaches `.oob` (a read
@@ -101,5 +118,15 @@ theorem frame_independent_of_stale_excitation (s : DecState) (f : FrameIn) (e : 
   frameGood_exc s f e o h
 
 example : (frameGood exState exVoiced).isOk = true := exVoiced_ok
+
+/-- Range lemma (bonus clause "particular expressions cannot wrap"): the excitation arithmetic of decode_core.c:81-91.  For EVERY
+    `opus_int16` pulse, seed and quantisation offset of magnitude up to 1024 (the table holds 25 … 240): `pulses[i] << 14` does not
+    wrap and `exc_Q14[i]` stays inside `[-2^30, 2^30]` after the level adjustment, the offset and the sign flip — the plain C
+    `+=`, `-=` and unary minus there are exact. -/
+theorem excitation_no_wrap (off seed p : Int) (hp : -32768 ≤ p ∧ p ≤ 32767) (ho : -1024 ≤ off ∧ off ≤ 1024) :
+    lshift32 p 14 = p * 16384 ∧ -1073741824 ≤ (excStep off seed p).1 ∧ (excStep off seed p).1 ≤ 1073741824 :=
+  excStep_nowrap off seed p hp ho
+
+example : (excStep 240 3 (-32768)).1 = 536865792 ∨ (excStep 240 3 (-32768)).1 = -536865792 := by decide +kernel
 
 end OpusProps.C03SilkCore
